@@ -1,21 +1,116 @@
-import NmlVerif.Proofs.Section
+import NmlVerif.Proofs.SectionHist
 /-!
 # C16 — unbranched sectioning partitions the tree into maximal chains, altering nothing
 
-Model: `NmlVerif.Section` (`Model/Section.lean`) of `Cell.create_unbranched_segment_group_branches`, tied to
-`neuroml/nml/helper_methods.py` / `neuroml/nml/nml.py` by the correspondence check `harness/props/c16.py`
-(generated cells, real method vs `Drivers/C16.lean`).
+Model: `NmlVerif.Section` (`Model/Section.lean`) of `Cell.create_unbranched_segment_group_branches` with the
+iterative private sectioniser (`fixes/C16-iterative-sectionise.patch`), tied to `neuroml/nml/helper_methods.py` /
+`neuroml/nml/nml.py` by the correspondence check `harness/props/c16.py` (generated cells and HISTORIES of calls on
+one cell object, real methods vs `Drivers/C16.lean`) and by the translator `translators/py2lean_section.py`.
 
-All theorems are stated for the call
-`run oi cell cache root reorder optimise lim fuel` under the hypotheses `Wf cell cache root lim fuel k t`
-(`Proofs/Section.lean`; decidable form `hypB`, evaluated by the driver on every generated case), for EVERY cell,
-tree shape, id assignment, attachment fraction, pre-existing groups and flag setting.  `oi` is the part of
-`optimise_segment_group` that C16 does not model (groups with includes; property C14): any id-preserving
-function.  `NG` below is `newGroups cell.groups.length t`, the explicit list of new groups.
+Three layers of statements, each for EVERY cell, tree shape (any nesting of branch points: the sectioniser no longer
+recurses), id assignment, attachment fraction, pre-existing groups and flag setting:
+
+* **A. as the code sees the cell** (`c16_call`, `c16_rooted_tree`, `c16_history`): a list of segments with parent
+  pointers, distinct ids, acyclic (`WfCell`, `Good`, `RootedAt`) — the tree is *constructed* (`c16_tree_exists`),
+  not assumed — and the cell OBJECT carries its cached adjacency list through any history of calls.  Conclusion:
+  `CallOK`, the whole property for one call relative to the cell at the time of the call.
+* **B. with the tree and the new groups explicit** (`c16_result` … `c16_old_groups_optimised`, hypotheses
+  `Wf … t`, discharged from A's hypotheses by `c16_wf_of_cell`): additionally the exact list, order and names of
+  the new groups (`newGroups`).
+* **C. known findings**: `c16_full` (false) / `c16_partial` / three witnesses.
+
+`oi` is the part of `optimise_segment_group` that C16 does not model (groups with includes; property C14): any
+id-preserving function.
 -/
 namespace NmlVerif.Section
 
 variable {oi : List Group → Group → Group} {cell : St} {cache : Option Adj} {root lim fuel k : Nat} {t : Tree}
+
+/-! ## A. the cell as the code sees it: parent pointers, cached adjacency list, histories -/
+
+/-- **The tree exists.**  Distinct ids + acyclic parent pointers: the adjacency dictionary unfolds from any root to
+    a rose tree that repeats no id, with at most as many nodes as there are segments. -/
+theorem c16_tree_exists {segs : List Seg} (hnd : (segs.map (·.id)).Nodup) (hac : Acyclic segs) (root : Nat)
+    (hroot : ∃ s, getSegment segs root = some s) :
+    ∃ t : Tree, t.id = root ∧ Repr (adjacency segs) t ∧ (preorder t).Nodup ∧ size t ≤ segs.length := by
+  obtain ⟨t, h1, h2, h3⟩ := exists_tree hnd hac root
+  exact ⟨t, h1, h2, h3, tree_size_le h2 h3 (by rw [h1]; exact hroot)⟩
+
+/-- the tree-free hypotheses imply the hypotheses of part B (`Repr`, `tree`, `fuel_ok`, `no_clash` are PROVED) -/
+theorem c16_wf_of_cell (W : WfCell cell cache root lim fuel k) : ∃ t, Wf cell cache root lim fuel k t := W.wf
+
+/-- a rooted segment tree (every segment reaches a parentless root along parent pointers) is acyclic -/
+theorem c16_rooted_acyclic {segs : List Seg} {r : Nat} (hnd : (segs.map (·.id)).Nodup) (h : RootedAt segs r) :
+    Acyclic segs := h.acyclic hnd
+
+/-- **One call, tree-free.**  Under `WfCell` (distinct ids, acyclic parent pointers, fresh or no cache, the chain
+    heads' proximals resolve within the frame budget, no clashing generated name) the call succeeds and achieves
+    `CallOK`: partition into maximal chains, first proximals explicit = implied, geometry / parents / old groups
+    unchanged, the cached adjacency list = the morphology's, unmodified. -/
+theorem c16_call (hoi : IdPreserving oi) {c : CellS} (W : WfCell c.st c.cache root lim fuel k)
+    (reorder optimise : Bool) :
+    ∃ c', call oi c root reorder optimise lim fuel = .ok c' ∧ CallOK c root optimise c' :=
+  callOK_of_wfCell hoi W reorder optimise
+
+/-- a rooted segment tree whose parentless segments carry a proximal point is a `Good` cell object for some frame
+    need `k` -/
+theorem c16_rooted_good {c : CellS} {r : Nat} (hnd : (c.segs.map (·.id)).Nodup) (hr : RootedAt c.segs r)
+    (hprox : ∀ s ∈ c.segs, s.parent = none → s.prox ≠ none) (hc : FreshCache c.st c.cache)
+    (hg : GenBelow c.groups) (hne : ∀ g ∈ c.groups, g.id ≠ "") : ∃ k, Good k c := by
+  have hac := hr.acyclic hnd
+  obtain ⟨k, hk⟩ := exists_frames hnd hac (hr.parents_exist hnd) hprox
+  refine ⟨k, ⟨hc, hnd, hac, ?_, hg, hne⟩⟩
+  intro x hx
+  obtain ⟨s, hs, rfl⟩ := List.mem_map.1 hx
+  exact hk s hs
+
+/-- **Rooted segment trees.**  For every rooted segment tree with arbitrary ids, branching, depth, fractions and
+    groups there is a frame need `k` such that, with `k + 1` frames, sectioning from ANY segment of the cell
+    succeeds and achieves the full property — whatever the nesting depth of branch points. -/
+theorem c16_rooted_tree (hoi : IdPreserving oi) {c : CellS} {r : Nat} (hnd : (c.segs.map (·.id)).Nodup)
+    (hr : RootedAt c.segs r) (hprox : ∀ s ∈ c.segs, s.parent = none → s.prox ≠ none)
+    (hc : FreshCache c.st c.cache) (hg : GenBelow c.groups) (hne : ∀ g ∈ c.groups, g.id ≠ "") :
+    ∃ k, ∀ root ∈ c.segs.map (·.id), ∀ (lim fuel : Nat) (reorder optimise : Bool), k + 1 ≤ lim →
+      c.segs.length + 2 ≤ fuel →
+      ∃ c', call oi c root reorder optimise lim fuel = .ok c' ∧ CallOK c root optimise c' := by
+  obtain ⟨k, G⟩ := c16_rooted_good hnd hr hprox hc hg hne
+  refine ⟨k, ?_⟩
+  intro root hroot lim fuel reorder optimise hlim hfuel
+  obtain ⟨c', h1, h2, _⟩ := call_good hoi G hroot hlim hfuel reorder optimise
+  exact ⟨c', h1, h2⟩
+
+/-- one call on a good cell object leaves a good cell object: the invariant behind `c16_history` -/
+theorem c16_call_preserves_good (hoi : IdPreserving oi) {c : CellS} (G : Good k c)
+    (hroot : root ∈ c.segs.map (·.id)) (hlim : k + 1 ≤ lim) (hfuel : c.segs.length + 2 ≤ fuel)
+    (reorder optimise : Bool) :
+    ∃ c', call oi c root reorder optimise lim fuel = .ok c' ∧ CallOK c root optimise c' ∧ Good k c' ∧
+      c'.segs.map (·.id) = c.segs.map (·.id) :=
+  call_good hoi G hroot hlim hfuel reorder optimise
+
+/-- **Histories.**  Any sequence of sectioning calls on one cell object — any roots (repeats, sub-tree roots), any
+    flags — interleaved with `get_segment_adjacency_list()`, `get_graph()` and additions of (not generated-looking)
+    groups: every operation succeeds, and every sectioning call achieves `CallOK` relative to the cell AT THE TIME
+    OF THAT CALL (its pre-existing groups include the groups made by all earlier calls; the cache it leaves is the
+    adjacency list of the morphology). -/
+theorem c16_history (hoi : IdPreserving oi) {c : CellS} (G : Good k c) (hlim : k + 1 ≤ lim)
+    (hfuel : c.segs.length + 2 ≤ fuel) (ops : List Op) (hv : ∀ op ∈ ops, OpValid (c.segs.map (·.id)) op) :
+    HistOK oi lim fuel c ops :=
+  history_ok hoi hlim ops c G hfuel hv
+
+/-- in particular the whole history runs to the end -/
+theorem c16_history_runs (hoi : IdPreserving oi) {c : CellS} (G : Good k c) (hlim : k + 1 ≤ lim)
+    (hfuel : c.segs.length + 2 ≤ fuel) (ops : List Op) (hv : ∀ op ∈ ops, OpValid (c.segs.map (·.id)) op) :
+    ∃ c', runOps oi lim fuel c ops = .ok c' := by
+  have h := history_ok hoi hlim ops c G hfuel hv
+  clear hv G hfuel
+  induction ops generalizing c with
+  | nil => exact ⟨c, rfl⟩
+  | cons op ops ih =>
+    obtain ⟨c1, h1, _, h3⟩ := h
+    obtain ⟨c', hc'⟩ := ih h3
+    exact ⟨c', by simp only [runOps, h1, hc']⟩
+
+/-! ## B. with the tree `t` and the new groups `NG = newGroups cell.groups.length t` explicit -/
 
 /-- **The call succeeds and this is its result.**  The segment list is only refined (implied proximals made
     explicit — `Refines`), every pre-existing group is still there (`OldRel`: same id; literally the same group
@@ -30,7 +125,8 @@ theorem c16_result (hoi : IdPreserving oi) (W : Wf cell cache root lim fuel k t)
       (reorder = false → cell'.groups = olds' ++ newGroups cell.groups.length t) ∧
       HasProx cell'.segs root ∧ (∀ ch ∈ rest t, HasProx cell'.segs ch.1) := by
   obtain ⟨segs', gs', olds', h1, h2, h3, h4, h5, h6, h7⟩ := run_spec hoi cell cache root reorder optimise lim fuel k t
-    W.cache_fresh W.ids_nodup W.repr W.root_eq W.tree W.fuel_ok W.frames W.proximal W.no_clash W.ids_nonempty
+    W.cache_fresh W.ids_nodup W.repr W.root_eq W.tree W.fuel_ok W.frames W.root_proximal W.head_proximal W.no_clash
+    W.ids_nonempty
   exact ⟨⟨segs', gs'⟩, olds', h1, h2, h5, h6, h7, h3, h4⟩
 
 /-- the new groups are exactly the groups of the result that carry the section NeuroLex id and whose id did not
@@ -85,9 +181,7 @@ theorem c16_maximal_bottom (W : Wf cell cache root lim fuel k t) :
 
 /-- **Maximal at the top.**  The first member is the given root, or a child of a reachable branch point. -/
 theorem c16_maximal_top (W : Wf cell cache root lim fuel k t) :
-    ∀ n ∈ newGroups cell.groups.length t, ∀ h, n.members.head? = some h →
-      h = root ∨ ∃ p, Reach (adjacency cell.segs) root p ∧ h ∈ childrenOf cell.segs p ∧
-        2 ≤ (childrenOf cell.segs p).length := by
+    ∀ n ∈ newGroups cell.groups.length t, ∀ h, n.members.head? = some h → IsHead cell.segs root h := by
   intro n hn h hh
   rcases (newGroups_good W.repr hn).2 with ⟨l, e⟩ | ⟨h', l, p, cs, e, hp, hl, h2, hc⟩
   · left
@@ -168,52 +262,48 @@ theorem c16_old_groups_optimised (hoi : IdPreserving oi) (W : Wf cell cache root
   obtain ⟨cell', olds', h1, _, h3, h4, _⟩ := c16_result hoi W reorder true
   exact ⟨cell', olds', h1, h4, rel2_mono (fun g g' h => ⟨h.1, fun hc => h.2 (Or.inr hc)⟩) h3⟩
 
-/-! ## Known findings: the three hypotheses that cannot be dropped
+/-- the groups a call makes carry counters in `[number of groups before, number of groups after)`: they can never
+    clash with the names a LATER call generates (whose counters start at the number of groups then) -/
+theorem c16_generated_names_ascend {G0 : Nat} {n : Group} (hn : n ∈ newGroups G0 t) :
+    ∃ m h, G0 ≤ m ∧ m < G0 + (newGroups G0 t).length ∧ n.id = genName m h := by
+  obtain ⟨m, h, h1, h2, e⟩ := newGroups_id_range hn
+  exact ⟨m, h, h1, by omega, e⟩
 
-Full-strength statement: for every well-formed *input* (no assumption on frames, names of pre-existing groups,
-or the adjacency cache the cell acquired earlier in its life) the call succeeds and every reachable segment is
-in exactly one new section group. -/
+/-! ## C. known findings: the three hypotheses that cannot be dropped
 
-/-- every reachable segment is a member of exactly one new section group of the result -/
-def Partitioned (cell cell' : St) (root : Nat) : Prop :=
-  ∀ x, Reach (adjacency cell.segs) root x →
-    ((newSectionGroups cell cell').filter (fun g => decide (x ∈ g.members))).length = 1
+Full-strength statement: for every well-formed *input* (no assumption on frames beyond what an unbranched cell
+needs, on the names of pre-existing groups, or on the adjacency cache the cell acquired earlier in its life) the
+call succeeds and achieves `CallOK`. -/
 
 /-- `optimise_segment_group` on groups with includes, as the driver instantiates it (left alone) -/
 def idOi : List Group → Group → Group := fun _ g => g
 
 theorem idOi_preserving : IdPreserving idOi := fun _ _ => rfl
 
-/-- well-formed input: distinct segment ids, a tree below the root, proximal points defined, group ids not empty -/
-structure WfInput (cell : St) (root fuel : Nat) (t : Tree) : Prop where
-  ids_nodup : (cell.segs.map (·.id)).Nodup
-  repr : Repr (adjacency cell.segs) t
-  root_eq : t.id = root
-  tree : (preorder t).Nodup
-  fuel_ok : need t ≤ fuel
-  proximal : ∃ k, ∀ x ∈ preorder t, ∃ p, actualProximal cell.segs k x = .ok p
-  ids_nonempty : ∀ g ∈ cell.groups, g.id ≠ ""
+/-- well-formed input: distinct segment ids, acyclic parent pointers, proximal points of the chain heads defined
+    (for SOME number of frames), group ids not empty -/
+structure WfInput (c : CellS) (root fuel : Nat) : Prop where
+  ids_nodup : (c.segs.map (·.id)).Nodup
+  acyclic : Acyclic c.segs
+  fuel_ok : c.segs.length + 2 ≤ fuel
+  proximal : ∃ k, ∀ x, IsHead c.segs root x → ∃ p, actualProximal c.segs k x = .ok p
+  ids_nonempty : ∀ g ∈ c.groups, g.id ≠ ""
 
 /-- FULL-STRENGTH statement (false on the current code, see the three witnesses): any frame budget that suffices
     for an unbranched cell, any cache the cell may have acquired while it was being built (none, or the
     adjacency list of its first `m` segments), any pre-existing groups. -/
 def c16_full : Prop :=
-  ∀ (cell : St) (cache : Option Adj) (root : Nat) (reorder optimise : Bool) (lim fuel : Nat) (t : Tree),
-    WfInput cell root fuel t → 2 ≤ lim →
-    (cache = none ∨ ∃ m, cache = some (adjacency (cell.segs.take m))) →
-    ∃ cell', run idOi cell cache root reorder optimise lim fuel = .ok cell' ∧ Partitioned cell cell' root
+  ∀ (c : CellS) (root : Nat) (reorder optimise : Bool) (lim fuel : Nat),
+    WfInput c root fuel → 2 ≤ lim →
+    (c.cache = none ∨ ∃ m, c.cache = some (adjacency (c.segs.take m))) →
+    ∃ c', call idOi c root reorder optimise lim fuel = .ok c' ∧ CallOK c root optimise c'
 
-/-- the strongest true restriction: the conclusion of `c16_full` under `Wf` (fresh cache, no generated name
-    taken, nesting of branch points and proximal chains within the frame budget) -/
-theorem c16_partial (W : Wf cell cache root lim fuel k t) (reorder optimise : Bool) :
-    ∃ cell', run idOi cell cache root reorder optimise lim fuel = .ok cell' ∧ Partitioned cell cell' root := by
-  obtain ⟨cell', h1, h2⟩ := c16_new_groups_identified idOi_preserving W reorder optimise
-  refine ⟨cell', h1, fun x hx => ?_⟩
-  have hp := (h2.filter (fun g => decide (x ∈ g.members))).length_eq
-  rw [hp]
-  have := c16_exactly_one W x hx
-  rw [List.filter_map, List.length_map] at this
-  exact this
+/-- the strongest true restriction: the conclusion of `c16_full` under `WfCell` (fresh cache, no generated name
+    with a reachable counter taken, proximal chains of the chain heads within the frame budget).  Nesting of
+    branch points is NOT restricted any more. -/
+theorem c16_partial {c : CellS} (W : WfCell c.st c.cache root lim fuel k) (reorder optimise : Bool) :
+    ∃ c', call idOi c root reorder optimise lim fuel = .ok c' ∧ CallOK c root optimise c' :=
+  c16_call idOi_preserving W reorder optimise
 
 /-! ### witnesses -/
 
@@ -224,82 +314,102 @@ def wSegs : List Seg :=
   [⟨0, none, some (pt 0 0 0 1), pt 1 0 0 1⟩, ⟨1, some (0, 1), none, pt 2 1 0 1⟩, ⟨2, some (0, 1), none, pt 2 0 0 1⟩,
    ⟨3, some (2, 1 / 2), none, pt 3 1 0 1⟩, ⟨4, some (2, 1), none, pt 3 0 0 1⟩]
 
-def wTree : Tree := .node 0 [.node 1 [], .node 2 [.node 3 [], .node 4 []]]
+/-- parents have smaller ids than their children in the witness cells -/
+theorem acyclic_of_smaller {segs : List Seg}
+    (h : segs.all (fun s => match s.parent with | some (p, _) => decide (p < s.id) | none => true) = true) :
+    Acyclic segs := by
+  refine ⟨fun x => x, ?_⟩
+  intro s hs p f hp
+  have := List.all_eq_true.1 h s hs
+  simpa [hp] using this
 
-theorem wInput (groups : List Group) (hne : ∀ g ∈ groups, g.id ≠ "") : WfInput ⟨wSegs, groups⟩ 0 20 wTree where
+theorem heads_resolve {segs : List Seg} {root k : Nat} (hroot : root ∈ segs.map (·.id))
+    (h : (segs.map (·.id)).all (fun x => isOk (actualProximal segs k x)) = true) :
+    ∀ x, IsHead segs root x → ∃ p, actualProximal segs k x = .ok p :=
+  fun x hx => all_isOk h x (isHead_is_segment hroot hx)
+
+theorem wInput (groups : List Group) (cache : Option Adj) (hne : ∀ g ∈ groups, g.id ≠ "") :
+    WfInput ⟨wSegs, groups, cache⟩ 0 20 where
   ids_nodup := by show (wSegs.map (·.id)).Nodup; decide
-  repr := (buildTree_sound (adjacency wSegs) 6 0 wTree (by rfl)).1
-  root_eq := rfl
-  tree := by decide
-  fuel_ok := by decide
-  proximal := ⟨3, all_isOk (segs := wSegs) (by decide +kernel)⟩
+  acyclic := by show Acyclic wSegs; exact acyclic_of_smaller (by decide)
+  fuel_ok := by show wSegs.length + 2 ≤ 20; decide
+  proximal := ⟨3, by
+    show ∀ x, IsHead wSegs 0 x → ∃ p, actualProximal wSegs 3 x = .ok p
+    exact heads_resolve (by decide) (by decide +kernel)⟩
   ids_nonempty := hne
 
-/-- KNOWN FINDING `C16:recursion-limit:nested-branch-points`: with 2 frames the call on two nested branch points
-    raises `RecursionError` (in the real interpreter: ~990 nested branch points at the default limit) -/
-theorem c16_witness_recursion : ¬ c16_full := by
-  intro h
-  obtain ⟨cell', h1, _⟩ := h ⟨wSegs, []⟩ none 0 false false 2 20 wTree (wInput [] (by simp)) (by decide) (Or.inl rfl)
-  have : run idOi ⟨wSegs, []⟩ none 0 false false 2 20 = .error .recursion := by decide +kernel
-  rw [this] at h1
-  cases h1
+/-- FIXED (`fixes/C16-iterative-sectionise.patch`; was the known finding
+    `C16:recursion-limit:nested-branch-points`): with only 3 frames (what the proximal of segment 3 needs) the call
+    on two nested branch points now succeeds — before the fix the model (and the code, at ~990 nested branch
+    points) raised `RecursionError` (`Proofs/SectionLegacy.lean: legacy_recursion_witness`) -/
+theorem c16_fixed_nested_branch_points :
+    (run idOi ⟨wSegs, []⟩ none 0 false false 3 20).toOption.map (fun c => c.groups.map (fun g => (g.id, g.members))) =
+      some [("seg_group_0_seg_0", [0]), ("seg_group_0_seg_1", [1]), ("seg_group_1_seg_2", [2]),
+        ("seg_group_2_seg_3", [3]), ("seg_group_3_seg_4", [4])] := by
+  decide +kernel
 
 /-- 0 ← 1 ← 2 ← {3, 4}, everything below 0 attached at fraction 1/2 without explicit proximal -/
 def wSegsP : List Seg :=
   [⟨0, none, some (pt 0 0 0 1), pt 8 0 0 1⟩, ⟨1, some (0, 1 / 2), none, pt 8 8 0 1⟩, ⟨2, some (1, 1 / 2), none, pt 0 8 0 1⟩,
    ⟨3, some (2, 1 / 2), none, pt 3 1 0 1⟩, ⟨4, some (2, 1 / 2), none, pt 3 0 0 1⟩]
 
-def wTreeP : Tree := .node 0 [.node 1 [.node 2 [.node 3 [], .node 4 []]]]
-
 /-- KNOWN FINDING `C16:recursion-limit:implied-proximal-chain`: one branch point only, but making the proximal of
     its children explicit needs one `get_actual_proximal` frame per ancestor; with 3 frames: `RecursionError` -/
 theorem c16_witness_proximal_chain : ¬ c16_full := by
   intro h
-  have hw : WfInput ⟨wSegsP, []⟩ 0 20 wTreeP :=
+  have hw : WfInput ⟨wSegsP, [], none⟩ 0 20 :=
     { ids_nodup := by show (wSegsP.map (·.id)).Nodup; decide
-      repr := (buildTree_sound (adjacency wSegsP) 6 0 wTreeP (by rfl)).1
-      root_eq := rfl
-      tree := by decide
+      acyclic := acyclic_of_smaller (by decide)
       fuel_ok := by decide
-      proximal := ⟨4, all_isOk (segs := wSegsP) (by decide +kernel)⟩
+      proximal := ⟨4, heads_resolve (by decide) (by decide +kernel)⟩
       ids_nonempty := by simp }
-  obtain ⟨cell', h1, _⟩ := h ⟨wSegsP, []⟩ none 0 false false 3 20 wTreeP hw (by decide) (Or.inl rfl)
-  have : run idOi ⟨wSegsP, []⟩ none 0 false false 3 20 = .error .recursion := by decide +kernel
+  obtain ⟨c', h1, _⟩ := h ⟨wSegsP, [], none⟩ 0 false false 3 20 hw (by decide) (Or.inl rfl)
+  have : call idOi ⟨wSegsP, [], none⟩ 0 false false 3 20 = .error .recursion := by decide +kernel
   rw [this] at h1
   cases h1
 
 /-- on outcome `r`, reachable segment `x` is NOT in exactly one new section group -/
-def violatesAt (cell : St) (x : Nat) (r : Except Err St) : Bool :=
+def violatesAt (c : CellS) (x : Nat) (r : Except Err CellS) : Bool :=
   match r with
-  | .ok c => ((newSectionGroups cell c).filter (fun g => decide (x ∈ g.members))).length != 1
+  | .ok c' => ((c.newGroupsOf c').filter (fun g => decide (x ∈ g.members))).length != 1
   | .error _ => true
 
-theorem not_full_of_violation {cell : St} {cache : Option Adj} {root lim fuel x : Nat} {reorder optimise : Bool}
-    {t : Tree} (hw : WfInput cell root fuel t) (hl : 2 ≤ lim)
-    (hc : cache = none ∨ ∃ m, cache = some (adjacency (cell.segs.take m)))
-    (hx : Reach (adjacency cell.segs) root x)
-    (hv : violatesAt cell x (run idOi cell cache root reorder optimise lim fuel) = true) : ¬ c16_full := by
+theorem not_full_of_violation {c : CellS} {root lim fuel x : Nat} {reorder optimise : Bool}
+    (hw : WfInput c root fuel) (hl : 2 ≤ lim)
+    (hc : c.cache = none ∨ ∃ m, c.cache = some (adjacency (c.segs.take m)))
+    (hx : Reach (adjacency c.segs) root x)
+    (hv : violatesAt c x (call idOi c root reorder optimise lim fuel) = true) : ¬ c16_full := by
   intro h
-  obtain ⟨cell', h1, h2⟩ := h cell cache root reorder optimise lim fuel t hw hl hc
+  obtain ⟨c', h1, h2⟩ := h c root reorder optimise lim fuel hw hl hc
   rw [h1] at hv
-  have := h2 x hx
+  have := h2.exactly_one x hx
   simp [violatesAt, this] at hv
 
 /-- KNOWN FINDING `C16:generated-name-collision`: a pre-existing group called `seg_group_1_seg_1` is reused for
     the chain starting at segment 1, which therefore is in no new group (and the old group grows) -/
 theorem c16_witness_name_collision : ¬ c16_full :=
-  not_full_of_violation (cell := ⟨wSegs, [⟨"seg_group_1_seg_1", none, [4], []⟩]⟩) (cache := none) (root := 0)
+  not_full_of_violation (c := ⟨wSegs, [⟨"seg_group_1_seg_1", none, [4], []⟩], none⟩) (root := 0)
     (lim := 50) (fuel := 20) (x := 1) (reorder := false) (optimise := false)
-    (wInput _ (by decide)) (by decide) (Or.inl rfl)
+    (wInput _ _ (by decide)) (by decide) (Or.inl rfl)
     (.step (cs := [1, 2]) .refl (by decide +kernel) (by decide)) (by decide +kernel)
 
 /-- KNOWN FINDING `C16:stale-adjacency-cache`: the cell computed its adjacency list when it had two segments;
     the segments added later (here segment 2) are in no new group -/
 theorem c16_witness_stale_cache : ¬ c16_full :=
-  not_full_of_violation (cell := ⟨wSegs, []⟩) (cache := some (adjacency (wSegs.take 2))) (root := 0)
+  not_full_of_violation (c := ⟨wSegs, [], some (adjacency (wSegs.take 2))⟩) (root := 0)
     (lim := 50) (fuel := 20) (x := 2) (reorder := false) (optimise := false)
-    (wInput [] (by simp)) (by decide) (Or.inr ⟨2, rfl⟩)
+    (wInput [] _ (by simp)) (by decide) (Or.inr ⟨2, rfl⟩)
     (.step (cs := [1, 2]) .refl (by decide +kernel) (by decide)) (by decide +kernel)
+
+/-- that stale state arises from a history: build two segments, `get_segment_adjacency_list()`, append three more -/
+example : runOps idOi 50 20 ⟨wSegs.take 2, [], none⟩ ([Op.refresh] ++ (wSegs.drop 2).map Op.append) =
+    .ok ⟨wSegs, [], some (adjacency (wSegs.take 2))⟩ := by decide +kernel
+
+/-- and one more `get_segment_adjacency_list()` before the call repairs it: segment 2 is in exactly one new group -/
+example : violatesAt ⟨wSegs, [], some (adjacency wSegs)⟩ 2
+    (runOps idOi 50 20 ⟨wSegs.take 2, [], none⟩
+      ([Op.refresh] ++ (wSegs.drop 2).map Op.append ++ [Op.refresh, Op.sect 0 false false])) = false := by
+  decide +kernel
 
 /-! ### the hypotheses are satisfiable (non-vacuity), on a cell with pre-existing groups, nested branch points,
     fractional attachment, default and section-marked old groups -/
@@ -307,14 +417,66 @@ theorem c16_witness_stale_cache : ¬ c16_full :=
 def exCell : St :=
   ⟨wSegs, [⟨"soma_group", none, [0, 0], []⟩, ⟨"all", none, [0, 1], ["soma_group"]⟩, ⟨"old_sec", some sectionNlx, [3], []⟩]⟩
 
+def exCellS : CellS := ⟨exCell.segs, exCell.groups, none⟩
+
 example : ∃ t k, Wf exCell none 0 10 20 k t := hypB_sound (by decide +kernel)
 
 example : IdPreserving idOi := idOi_preserving
+
+theorem exGood : Good 3 exCellS where
+  cache_fresh := Or.inl rfl
+  ids_nodup := by show (wSegs.map (·.id)).Nodup; decide
+  acyclic := acyclic_of_smaller (by decide)
+  proximal := all_isOk (segs := wSegs) (by decide +kernel)
+  gen_below := by
+    intro g hg n i e
+    simp only [exCellS, exCell, List.mem_cons, List.not_mem_nil, or_false] at hg
+    rcases hg with rfl | rfl | rfl <;> · have := congrArg String.toList e; rw [genName_toList] at this; simp at this
+  ids_nonempty := by decide
+
+example : WfCell exCellS.st exCellS.cache 2 10 20 3 := exGood.wfCell (by decide) (by decide) (by decide)
+
+/-- wSegs is a rooted segment tree -/
+example : RootedAt wSegs 0 :=
+  ⟨⟨_, rfl, rfl⟩, by
+    intro s hs
+    simp only [wSegs, List.mem_cons, List.not_mem_nil, or_false] at hs
+    rcases hs with rfl | rfl | rfl | rfl | rfl
+    · exact ⟨0, rfl⟩
+    · exact ⟨1, by decide +kernel⟩
+    · exact ⟨1, by decide +kernel⟩
+    · exact ⟨2, by decide +kernel⟩
+    · exact ⟨2, by decide +kernel⟩⟩
+
+/-- a history the theorem covers: whole cell, a sub-tree, a cache refresh, a user group, the whole cell again -/
+def exOps : List Op :=
+  [.sect 0 true true, .sect 2 false true, .refresh, .addGroup ⟨"apical", none, [3, 4], []⟩, .ensure, .sect 0 false false]
+
+example : HistOK idOi 10 20 exCellS exOps :=
+  c16_history idOi_preserving exGood (by decide) (by decide) exOps (by
+    intro op hop
+    simp only [exOps, List.mem_cons, List.not_mem_nil, or_false] at hop
+    rcases hop with rfl | rfl | rfl | rfl | rfl | rfl
+    · show (0 : Nat) ∈ _; decide
+    · show (2 : Nat) ∈ _; decide
+    · trivial
+    · refine ⟨by decide, fun n i e => ?_⟩
+      have := congrArg String.toList e; rw [genName_toList] at this; simp at this
+    · trivial
+    · show (0 : Nat) ∈ _; decide)
 
 /-- and on that cell the model computes what the theorems say (default flags) -/
 example : (run idOi exCell none 0 true true 10 20).toOption.map (fun c => c.groups.map (fun g => (g.id, g.members))) =
     some [("old_sec", [3]), ("seg_group_3_seg_0", [0]), ("seg_group_3_seg_1", [1]), ("seg_group_4_seg_2", [2]),
       ("seg_group_5_seg_3", [3]), ("seg_group_6_seg_4", [4]), ("soma_group", [0]), ("all", [0, 1])] := by
+  decide +kernel
+
+/-- the second call of `exOps` (sub-tree root 2, after the first call): three further groups, counters continue -/
+example : (runOps idOi 10 20 exCellS (exOps.take 2)).toOption.map
+      (fun c => (c.groups.map (fun g => (g.id, g.members)), c.cache == some (adjacency wSegs))) =
+    some ([("old_sec", [3]), ("seg_group_3_seg_0", [0]), ("seg_group_3_seg_1", [1]), ("seg_group_4_seg_2", [2]),
+      ("seg_group_5_seg_3", [3]), ("seg_group_6_seg_4", [4]), ("soma_group", [0]), ("all", [0, 1]),
+      ("seg_group_8_seg_2", [2]), ("seg_group_8_seg_3", [3]), ("seg_group_9_seg_4", [4])], true) := by
   decide +kernel
 
 end NmlVerif.Section
